@@ -36,7 +36,7 @@ _ops("C19", "Query")
 READ_ONLY = set("Clone CloneSeqBag Unalign Sample SampleSeqBag SubAlign SelectSites InverseCoordinates InversePositions "
                 "RefCoordinates RefSites Split Transpose MaxCharStats Consensus CharStats CharStatsSite CharStatsSeq "
                 "UniqueCharacters Entropy NbVariableSites InformativeSites AvgAllelesPerSite Pssm CountDifferences "
-                "NumGapsUnique NumMutationsUnique NumMutRef ListMutRef CountProfile BuildBootstrap RandSubAlign Rarefy "
+                "NumGapsUnique NumMutationsUnique NumMutRef ListMutRef CountProfile SiteConservation AlphabetInfo BuildBootstrap RandSubAlign Rarefy "
                 "DetectAlphabet Identical Query".split())
 
 
@@ -378,7 +378,13 @@ def parse_account(v, trace, res):
 
 def _c03(work, v, tier, seed):
     vf.build_driver(work)
-    trace = vf.drive_resumable(work, "parse", n=250 if tier == "quick" else 100000, seed=seed, tier=tier)
+    cfg = write_cfg(work, "Gen_Parse_%s.cfg" % tier, spec=None, invariants=["Emit"], constants={"MaxExtra": 1 if tier == "quick" else 2})
+    cases, n, r = vf.tlc_gen(work, "Gen_Parse", cfg, workers=8, timeout=3000)
+    if n == 0:
+        raise vf.ToolingError("Gen_Parse produced no case")
+    dedup_lines(cases)
+    v.add_mc(r, "gen:Parse")
+    trace = vf.drive_resumable(work, "parse", cases=cases, n=250 if tier == "quick" else 100000, seed=seed, tier=tier)
     res = vf.tlc_trace(work, "Trace_Parse", trace, cfg=write_cfg(work, "Trace_Parse.cfg", invariants=["Done"]))
     parse_account(v, trace, res)
     v.assumptions += ["TLC and the CommunityModules evaluate TLA+ correctly",
